@@ -1066,6 +1066,9 @@ pub struct GenParams {
     pub allow_restart: bool,
     pub allow_seed: bool,
     pub foreign_lock_pct: u32,
+    /// library entry only: now and then an upload is EMPTY (the storage contract and the library
+    /// accept a zero-length segment or snapshot; only the HTTP handlers refuse an empty body)
+    pub allow_empty_payload: bool,
 }
 
 pub fn gen_ops(r: &mut Rng, p: &GenParams, n_clients: u8, cfg: &Cfg, page: u32) -> Vec<Op> {
@@ -1076,6 +1079,7 @@ pub fn gen_ops(r: &mut Rng, p: &GenParams, n_clients: u8, cfg: &Cfg, page: u32) 
     let mut pay = |r: &mut Rng, small: bool| -> Pay {
         tag += 1;
         let len = if small { r.range(1, 40) as u32 } else { ops::gen_len(r, page, p.max_payload) };
+        let len = if p.allow_empty_payload && p.entry == Entry::Lib && r.chance(2, 100) { 0 } else { len };
         let class = if len >= 32 && r.chance(5, 100) { *r.pick(&[ops::CLASS_ZLIB, ops::CLASS_GZIP]) } else { r.below(ops::N_CLASSES as u64) as u8 };
         Pay { class, len, tag }
     };
@@ -1283,6 +1287,7 @@ pub fn gen_plan(seed: u64, backend: Backend, entry: Entry, focus: Focus, thoroug
         allow_restart: true,
         allow_seed: true,
         foreign_lock_pct: if backend == Backend::Sqlite && r.chance(25, 100) { 12 } else { 0 },
+        allow_empty_payload: entry == Entry::Lib,
     };
     let mut ops = gen_ops(&mut r, &p, n_clients, &cfg, page);
     // swarm knob: in some runs clients deliberately quote each other's ids
